@@ -42,19 +42,24 @@ def run(ctx):
         ctx.add_tlc('E0+E1 generation ' + gcfg, res, gcfg)
         base = _base(([g.state(n) for n in p] for p in g.behaviours()))
         del g
-        items = _expand(base, ctx.seed, 1 if quick else 3)
+        items = _expand(base, ctx.seed, 1 if quick else 2)
         if quick:
-            # a third of the histories per run, chosen by the seed (the thorough tier replays all of them, 3 kind assignments each)
+            # a third of the histories per run, chosen by the seed (the thorough tier replays all of them, 2 kind assignments each)
             items = [it for k, it in enumerate(items) if (k + ctx.seed) % 3 == 0]
         else:
-            # deeper graph (3 evaluations, 2 mutations): one kind assignment per history, every eighth history by the seed
-            gcfg2 = 'GEN_Memo_thorough.cfg'
-            res, g = tlc.dump_graph(wd, 'MC_Memo.tla', gcfg2, timeout=6000)
-            ctx.add_tlc('E0+E1 generation ' + gcfg2, res, gcfg2)
-            base2 = _base(([g.state(n) for n in p] for p in g.behaviours()))
-            del g
-            deep = _expand(base2, ctx.seed + 7, 1)
-            items += [it for k, it in enumerate(deep) if (k + ctx.seed) % 8 == 0]
+            # deeper histories (up to 4 evaluations and 4 mutations) as random walks: the state graph of that bound cannot be exported
+            res, behs = tlc.simulate(wd, 'MC_Memo.tla', 'SIM_Memo.cfg', num=30000, depth=10, seed=ctx.seed + 11, timeout=3000)
+            ctx.cov['tlc_runs'].append({'label': 'E1 simulation SIM_Memo.cfg', 'behaviours': len(behs), 'depth': 10})
+            def cut(sl):
+                k = max([i for i, st in enumerate(sl) if str(st['act']['op']) == 'Evaluate'] or [0])
+                return sl[:k + 1]
+            deep = _expand(_base(cut(sl) for sl in behs), ctx.seed + 7, 1)
+            seen_keys = set()
+            for it in deep:
+                key = (tuple(sorted(it['kinds'].items())), tuple((s['act']['op'], s['act']['a'], s['act']['b']) for s in it['steps']))
+                if key not in seen_keys:
+                    seen_keys.add(key)
+                    items.append(it)
     ctx.check_ops(gcfg, items, ['Setup', 'Evaluate', 'UpdateComponents', 'UpdateFromData', 'MutateLeaf', 'SetLink', 'SetViewer'])
     used = set()
     for it in items:
